@@ -94,6 +94,13 @@ type State struct {
 	tags     map[string]bool     // path tags (e.g. "called:X") for path obligations
 	condLocks []condLock         // locks held under a condition (CtxMutex.Lock(ctx) == nil)
 	lockIdx  map[string]*Term    // index term of indexed locks held
+	lockAlias map[types.Object]lockAliasT // local pointer variables that alias a lock (&x.locks[i])
+}
+
+type lockAliasT struct {
+	key   string
+	idx   *Term
+	field string
 }
 
 type closure struct {
@@ -122,6 +129,7 @@ func (s *State) fork() *State {
 		tags:     make(map[string]bool, len(s.tags)),
 		condLocks: s.condLocks[:len(s.condLocks):len(s.condLocks)],
 		lockIdx:  make(map[string]*Term, len(s.lockIdx)),
+		lockAlias: s.lockAlias,
 	}
 	for k, v := range s.lockIdx {
 		n.lockIdx[k] = v
